@@ -9,7 +9,7 @@ SRC=${SEED_SRC:-/tmp/seed-out}/$ID/$M
 WT=/var/tmp/seedwt-$ID-$M-$$
 export PYTHONDONTWRITEBYTECODE=1
 git -C /repo worktree add -q --detach $WT HEAD || exit 9
-trap 'git -C /repo worktree remove --force $WT >/dev/null 2>&1; rm -rf $WT' EXIT
+trap 'git -C /repo worktree remove --force $WT >/dev/null 2>&1; rm -rf $WT /var/tmp/verif-out/$(basename $WT)' EXIT
 DEMO=$(ls $SRC/demo*.py | head -1)
 clean=$(cd $WT && REPO_DIR=$WT timeout 300 /venv/bin/python $DEMO >/dev/null 2>&1; echo $?)
 if ! git -C $WT apply $SRC/patch.diff 2>/dev/null; then
